@@ -49,7 +49,7 @@ def run(tier="quick", seed=0, use_cache=True):
     res.units = {"translation_units": len(out)}
     res.floor("slot stores of converted values (II)", out["II"]["stats"]["slot_stores"], 10)
     res.floor("byte-array conversion sites (fs)", out["fs"]["stats"]["bytes_sites"], 10)
-    res.floor("conversion status sites (II)", out["II"]["stats"]["conv_status_sites"], 30)
+    res.floor("conversion sites with a status (II)", out["II"]["stats"]["conv_status_sites"], 12)
     res.floor("translation units", len(out), 22)
     res.count("NARROW-GUARD", tot["slot_stores"])
     res.count("BYTES-GUARD", tot["bytes_sites"])
